@@ -1836,3 +1836,58 @@ func (c *Ctx) sharedBacking(v ssa.Value, d int) (bool, string) {
 	}
 	return false, ""
 }
+
+func init() {
+	reg := registry["C11"]
+	reg.Meta.Rules["C11.9"] = "a superblock writer that serves several versions writes the version it was given: if the version dispatch of Superblock.WriteTo sends more than one version to the same writer function, that function stores the Version field itself into the buffer (a constant version byte turns a version 3 superblock into a version 2 one)"
+	reg.Rules = append(reg.Rules, func(c *Ctx, r *Result) {
+		top := c.FnOpt("core.Superblock.WriteTo")
+		if top == nil {
+			r.Undec("C11.9", "core.Superblock.WriteTo#version-byte", "", "superblock writer not found")
+			return
+		}
+		served := map[*ssa.Function][]int64{}
+		for _, v := range []int64{0, 1, 2, 3} {
+			blocks := mayReachUnderVersion(top, v)
+			for _, site := range callsIn(top) {
+				if !blocks[site.(ssa.Instruction).Block()] {
+					continue
+				}
+				if g := site.Common().StaticCallee(); g != nil && g.Blocks != nil && strings.HasPrefix(c.Name(g), "core.Superblock.write") {
+					served[g] = append(served[g], v)
+				}
+			}
+		}
+		n := 0
+		var fns []*ssa.Function
+		for g := range served {
+			fns = append(fns, g)
+		}
+		sortFuncs(c, fns)
+		for _, g := range fns {
+			vs := served[g]
+			n++
+			storesField := false
+			instrs(g, func(in ssa.Instruction) {
+				st, ok := in.(*ssa.Store)
+				if !ok {
+					return
+				}
+				if _, isIA := st.Addr.(*ssa.IndexAddr); !isIA {
+					return
+				}
+				if k, _ := fieldLoadKey(stripConv(st.Val)); strings.HasSuffix(k, "Superblock.Version") {
+					storesField = true
+				}
+			})
+			if len(vs) < 2 {
+				r.Hold("C11.9", c.Name(g)+"#writes-the-version-it-serves", c.Pos(g.Pos()), "serves one version only")
+				continue
+			}
+			r.Check(storesField, "C11.9", c.Name(g)+"#writes-the-version-it-serves", c.Pos(g.Pos()), "serves "+itoa(len(vs))+" superblock versions; the version byte must be the superblock's Version field, not a constant")
+		}
+		if n == 0 {
+			r.Undec("C11.9", "core.Superblock.WriteTo#version-byte", c.Pos(top.Pos()), "no version-specific writer reached from WriteTo")
+		}
+	})
+}
